@@ -307,6 +307,36 @@ fn histories(acc: &mut Acc) {
     }
 }
 
+/// Very large trees (node counts around 4096 and 65536; chains 4095..5000 deep) of -true tests
+/// with the only action last / first / absent.  Runs in a child process (`run_isolated`).
+pub fn huge_family() -> Acc {
+    use speclib::trees::{balanced, left_chain, on_big_stack, Op};
+    on_big_stack(move || {
+            let mut h = Acc::new();
+            for n in [4095usize, 4096, 4097, 5000, 32768, 65535, 65536, 65537, 70000] {
+                let tests: Vec<Expr> = (0..n).map(|_| Expr::Test(Test::True)).collect();
+                let mut last = tests.clone();
+                last.push(Expr::Action(Action::Print));
+                let mut first = vec![Expr::Action(Action::FPrint("f".into()))];
+                first.extend(tests.iter().cloned());
+                for leaves in [&tests, &last, &first] {
+                    check(&balanced(Op::And, leaves), &mut h);
+                    check(&Expr::and(balanced(Op::Or, &tests), leaves.last().unwrap().clone()), &mut h);
+                    if n <= 5000 {
+                        check(&left_chain(Op::And, leaves), &mut h);
+                        check(&left_chain(Op::Or, leaves), &mut h);
+                    }
+                }
+            }
+            h
+    })
+    .unwrap_or_else(|| {
+        let mut a = Acc::new();
+        a.violate(Violation::new("C09:panic:very-large-tree", "compiling or running a tree of 4095..70000 leaves died".to_string(), json!({"kind": "huge"})));
+        a
+    })
+}
+
 pub fn run(ctx: &Ctx) -> i32 {
     let m = menu();
     let maxn = ctx.tier.pick(4, 5);
@@ -440,58 +470,8 @@ pub fn run(ctx: &Ctx) -> i32 {
             acc.validated += 1;
         }));
     }
-    // very large trees (node counts around 4096 and 65536; chains 4097 and 5000 deep) of -true
-    // tests with the only action last / first / absent
-    {
-        use speclib::trees::{balanced, left_chain, on_big_stack, Op};
-        let huge = on_big_stack(move || {
-            let mut h = Acc::new();
-            for n in [4095usize, 4096, 4097, 5000, 32768, 65535, 65536, 65537, 70000] {
-                let tests: Vec<Expr> = (0..n).map(|_| Expr::Test(Test::True)).collect();
-                let mut last = tests.clone();
-                last.push(Expr::Action(Action::Print));
-                let mut first = vec![Expr::Action(Action::FPrint("f".into()))];
-                first.extend(tests.iter().cloned());
-                for leaves in [&tests, &last, &first] {
-                    check(&balanced(Op::And, leaves), &mut h);
-                    check(&Expr::and(balanced(Op::Or, &tests), leaves.last().unwrap().clone()), &mut h);
-                    if n <= 5000 {
-                        check(&left_chain(Op::And, leaves), &mut h);
-                        check(&left_chain(Op::Or, leaves), &mut h);
-                    }
-                }
-            }
-            h
-        });
-        match huge {
-            Some(h) => acc = acc.merge(h),
-            None => acc.violate(Violation::new("C09:panic:very-large-tree", "compiling or running a tree of 4095..70000 leaves died".to_string(), json!({"kind": "huge"}))),
-        }
-    }
-    // action-free expressions whose string arguments spell pieces of generated code: the implicit
-    // print is decided by the tree, not by what the program text happens to contain
-    let frags = crate::policy::harvest_fragments();
-    acc = acc.merge(speclib::report::par_items(&frags, |s, acc| {
-        for t in [
-            Expr::Test(Test::Name(s.clone())),
-            Expr::Test(Test::Pool(s.clone())),
-            Expr::Test(Test::Xattr(s.clone())),
-            Expr::Test(Test::XattrMatch("user.hook".into(), s.clone())),
-            Expr::or(Expr::Test(Test::IPath(s.clone())), Expr::Test(Test::Name("x".into()))),
-            Expr::and(Expr::Test(Test::Path(s.clone())), Expr::Action(Action::Quit)),
-        ] {
-            // a file on which every one of these tests holds, and the usual two
-            let mut hit = Record::distinct(1_700_000_000);
-            hit.name = s.clone();
-            hit.rel_path = s.clone();
-            hit.pools = vec![s.clone()];
-            hit.xattrs = vec![(s.clone(), "v".into()), ("user.hook".into(), s.clone())];
-            let mut recs = records();
-            recs.push(hit);
-            check_on(&t, None, &recs, acc);
-        }
-    }));
-    acc.count("generated_looking_strings", frags.len() as u64);
+    // very large trees: in a child process under a memory limit (see props::run_isolated)
+    acc = acc.merge(crate::props::run_isolated("C09", "huge", "trees of 4095..70000 leaves and chains 4095..5000 deep"));
     let mut h = Acc::new();
     histories(&mut h);
     acc = acc.merge(h);
